@@ -50,8 +50,8 @@ pub fn pairs(tier: Tier, max_ratio: f64) -> Vec<Pair> {
                 continue;
             }
             k += 1;
-            // quick: every 16th pair (a fixed subset of the thorough set)
-            if tier == Tier::Quick && k % 16 != 1 {
+            // quick: every 4th pair (a fixed subset of the thorough set)
+            if tier == Tier::Quick && k % 4 != 1 {
                 continue;
             }
             let p = PcSaftParameters::new_binary(vec![recs[i].clone(), recs[j].clone()], None).unwrap();
